@@ -101,6 +101,12 @@ func parseNotations(texts ...string) []notation {
 			if len(f) == 0 {
 				continue
 			}
+			if f[0] == ":skip" && len(f) > 2 {
+				// a /regexp/ pattern is the rest of the line (it may contain white space)
+				if rest := strings.TrimSpace(strings.TrimPrefix(strings.TrimSpace(line), ":skip")); strings.HasPrefix(rest, "/") && strings.HasSuffix(rest, "/") {
+					f = []string{":skip", rest}
+				}
+			}
 			out = append(out, notation{f[0], f[1:]})
 		}
 	}
